@@ -7,9 +7,9 @@ PREFIXES = [[], ["validate"], ["unroll"], ["depth"], ["has_measurements", "num_q
 
 
 def make_cases(rnd, tier, progs):
-    n = 200 if tier == "quick" else 3000
+    n = 500 if tier == "quick" else 8000
     # many registers, few gates: plenty of idle qubits in every position
-    ps = progs(60 if tier == "quick" else 300, dict(gates=3, measure=2, reset=2, barrier=2, if_meas=3, for_=2, custom=2))
+    ps = progs(120 if tier == "quick" else 600, dict(gates=3, measure=2, reset=2, barrier=2, if_meas=3, for_=2, custom=2))
     out = []
     for k in range(n):
         src = ps[k % len(ps)]
